@@ -4,8 +4,8 @@
  *   - igris/util/numconvert.c with -DWITHOUT_ATOF64: igris_strtod -> igris_atof32,
  *     igris_ftoa(float32_t) -> igris_f32toa
  *   - compat/libc/stdlib/strtod.c with -DWITHOUT_ATOF64: strtod / atof -> igris_atof32
- * Every external function of numconvert.c is renamed (a function added to numconvert.c later shows up
- * as a duplicate symbol at link time, i.e. as a check error, not silently).                          */
+ * Every external function of numconvert.c that exists today is renamed; see the note on
+ * --allow-multiple-definition below for functions added later.                          */
 #include <stdlib.h>
 #define WITHOUT_ATOF64 1
 
@@ -32,9 +32,11 @@
 #define igris_strtod igv32_igris_strtod
 #define igris_ftoa igv32_igris_ftoa
 
-/* with WITHOUT_ATOF64 the header does not declare these two, numconvert.c still defines them */
-double igv32_atof64(const char *nptr, char **endptr);
-char *igv32_f64toa(double f, char *buf, signed char precision);
+/* ROUND 3b (fragility): no prototypes of internal functions here (with WITHOUT_ATOF64 the header does not declare
+ * igris_atof64 / igris_f64toa, numconvert.c still defines them: a definition without a prototype is fine in C), and the
+ * harness is linked with -Wl,--allow-multiple-definition (checks/C12.json "ldflags"): an external function that is
+ * ADDED to numconvert.c later exists in both flavours under one name - the linker keeps the first (identical) copy
+ * instead of failing. */
 
 #include <igris/util/numconvert.c>
 
